@@ -12,6 +12,7 @@ import (
 
 	"github.com/juev/hledger-lsp/internal/ast"
 	"github.com/juev/hledger-lsp/internal/parser"
+	"github.com/juev/hledger-lsp/internal/verifhook"
 )
 
 const (
@@ -288,6 +289,7 @@ func (l *Loader) loadSingleInclude(
 		return errors
 	}
 
+	verifhook.Point("ld.read", includePath)
 	journal, parseErrs := parseFile(includePath, string(incContent))
 	errors = append(errors, parseErrs...)
 	if journal != nil {
